@@ -240,6 +240,18 @@ def run(ctx):
                       bad_msg=f"the {kind} filter closure does not decide by `WildMatch::new(pattern).matches(class)` alone (a token is "
                               f"{'kept without a matching allow pattern or dropped despite one' if kind == 'allow' else 'kept although a remove pattern matches'})")
         ctx.check(set(kinds) == {"allow", "remove"}, "C14.classes", "C14.classes:filters-present", w.where(main), bad_msg=f"class filter closures found: {sorted(kinds)}")
+    # ---- the depth limit applies in both modes ----------------------------------------------------------------------------------
+    ctx.rule("C14.depth-default", "max_depth_value: an explicit max_depth wins; otherwise MAX_DEPTH_STRICT (100) in strict AND compat mode, no limit without a mode")
+    fm = w.fn(CL + "<impl ruma_html::sanitizer_config::SanitizerConfig>::max_depth_value")
+    dexm = D.Dex(w.lookup, adt_discr=w.adt_discr, inline=lambda n: "{closure" in n or n.startswith(CL + "<impl ruma_html::sanitizer_config::SanitizerConfig>::use_"))
+    mp = dexm.paths(fm, [D.sym("self")])
+    for mode in (None, "Strict", "Compat"):
+        for has_max in (False, True):
+            val = mode_valuation(mode, {"self.max_depth": has_max})
+            outs = {D.show(p.ret) for p in D.evaluate(mp, val) if p.kind == "ret"}
+            want = {"Option::Some(self.max_depth.Some.0)"} if has_max else ({"Option::Some(100)"} if mode else {"Option::None"})
+            ctx.check(outs == want, "C14.depth-default", f"C14.depth-default:mode={mode},max_depth={'set' if has_max else 'unset'}", w.where(fm),
+                      bad_msg=f"the nesting limit is {sorted(outs)}, the property prescribes {sorted(want)} (strict and compat mode both limit nesting to 100)")
     from . import controls
     controls.early_accept(ctx, "C14.all-attributes")
     ctx.assumptions += ["html5ever parser/serializer pair: what a parser sees in the output is not decided", "spec lists as in DESIGN.md Appendix A.7"]
@@ -292,3 +304,27 @@ def early_accept_loops(f, is_elem_next):
         vals = {v for v, _ in in_loop_returns if v}
         bad = [(v, line) for v, line in in_loop_returns if exhausted is not None and v == exhausted and len(vals - {exhausted}) > 0]
         yield exhausted, vals, bad
+
+
+def mode_valuation(mode, options=None):
+    """Valuation for atoms over `self.mode: Option<HtmlSanitizerMode>` (mode in None/'Strict'/'Compat') and over Option-valued fields given
+    in `options` ({"self.max_depth": True} = Some). Unknown atoms are left open."""
+    options = options or {}
+
+    def val(atom):
+        t = D.show_atom(atom)
+        if atom[0] == "variant":
+            subj = D.show(atom[1])
+            if subj == "self.mode":
+                return (atom[2] == "Some") == (mode is not None)
+            if subj == "self.mode.Some.0":
+                return None if mode is None else atom[2] == mode
+            if subj in options:
+                return (atom[2] == "Some") == options[subj]
+        if atom[0] == "eq":
+            a, b = D.show(atom[1]), D.show(atom[2])
+            for x, y in ((a, b), (b, a)):
+                if x == "self.mode.Some.0" and y.startswith("HtmlSanitizerMode::"):
+                    return None if mode is None else y.rsplit("::", 1)[-1] == mode
+        return None
+    return val
